@@ -78,8 +78,8 @@ def vec_getattr(self, ex, st, name):
         return Fn(model=masked_fill, name=name)
     if name == "bool":
         return Fn(model=lambda ex, st, a, k: Vec(self.n, self.arr, self.label), name=name)     # non-zero test happens in masked_fill
-    if name == "device":
-        return Opaque("device")
+    if name in ("device", "dtype"):
+        return Opaque(name)
     if name == "clip":
         def clip(ex, st, a, k):
             lo, hi = a[0], a[1]
@@ -175,10 +175,92 @@ def build(tier):
                    requires=[], frame_fields=False,
                    ensures=["in_box(result, self.action_space.low, self.action_space.high)"],
                    replay="c14:box")
+    # ---- numpy-based selection of RainbowDQN and CQN (masked arrays), row-generic
+    class MaskedVec:
+        def __init__(self, v, m):
+            self.v, self.m = v, m
+
+    def ma_array(ex, st, a, k):
+        return MaskedVec(a[0], k["mask"])
+
+    def np_argmax(ex, st, a, k):
+        x = a[0]
+        if isinstance(x, Vec):
+            return argmax(ex, st, [x], {})
+        if isinstance(x, MaskedVec):
+            # numpy.ma: masked entries (mask != 0) are ignored when at least one entry is unmasked
+            r = z3.Int(fresh_name("ma_argmax"))
+            kk = z3.Int(fresh_name("k"))
+            nn_ = z3ify(x.v.n)
+            st.assume(z3.And(0 <= r, r < nn_))
+            some = z3.Exists([kk], z3.And(0 <= kk, kk < nn_, x.m.arr[kk] == 0))
+            st.assume(z3.Implies(some, z3.And(x.m.arr[r] == 0,
+                                              z3.ForAll([kk], z3.Implies(z3.And(0 <= kk, kk < nn_, x.m.arr[kk] == 0), x.v.arr[kk] <= x.v.arr[r])))))
+            return r
+        raise Undecided("np.argmax of unknown value")
+
+    def np_where(ex, st, a, k):
+        c, x, y = a
+        kk = z3.Int("k!nw")
+        xv = x.arr[kk] if isinstance(x, Vec) else TT.toreal(x)
+        yv = y.arr[kk] if isinstance(y, Vec) else TT.toreal(y)
+        return Vec(c.n, z3.Lambda([kk], z3.If(c.arr[kk] != 0, xv, yv)), "where")
+
+    class ObsRow:
+        def length(self, ex, st):
+            return 1
+    P.lib.update({"numpy.ma.array": ma_array, "numpy.argmax": np_argmax, "numpy.where": np_where, "numpy.asarray": lambda ex, st, a, k: a[0],
+                  "numpy.random.uniform": lambda ex, st, a, k: rand_like(ex, st, [Vec(NA, Q, "shape")], {}),
+                  "numpy.random.randint": lambda ex, st, a, k: [_randint(st, a[0], a[1])],
+                  "random.random": lambda ex, st, a, k: _unit(st), "numpy.stack": lambda ex, st, a, k: a[0]})
+
+    def _randint(st, lo, hi):
+        r = z3.Int(fresh_name("randint"))
+        st.assume(z3.And(z3ify(lo) <= r, r < z3ify(hi)))
+        return r
+
+    def _unit(st):
+        u = z3.Real(fresh_name("u"))
+        st.assume(z3.And(u >= 0, u < 1))
+        return u
+
+    def q_self(cls):
+        def mk(ex, st, label):
+            o = Obj("model." + cls, label="self")
+            actor = ActorModel(Vec(NA, Q, "q_values"))
+            o.fields.update(dict(actor=actor, action_dim=NA, preprocess_observation=Fn(model=lambda ex, st, a, k: ObsRow(), name="preprocess_observation")))
+            return o
+        return mk
+    _old_actor_getattr = ActorModel.getattr
+
+    def actor_getattr(self, ex, st, name):
+        if name in ("eval", "train"):
+            return Fn(model=lambda ex, st, a, k: None, name=name)
+        return _old_actor_getattr(self, ex, st, name)
+    ActorModel.getattr = actor_getattr
+    first = lambda r: r[0] if isinstance(r, list) else r
+    P.specns["legal1"] = lambda r, m: legal(first(r), m)
+    P.specns["best1"] = lambda r, q, m: best_legal(first(r), q, m)
+    P.specns["inrange1"] = lambda r: z3.And(0 <= z3ify(first(r)), z3ify(first(r)) < NA)
+    maskp = lambda ex, st, l: Vec(NA, M, "mask")
+    P.contract("agilerl.algorithms.dqn_rainbow.RainbowDQN.get_action", variant="masked",
+               params={"self": q_self("RainbowDQN"), "obs": "opaque", "action_mask": maskp, "training": "bool"}, requires=[], frame_fields=False,
+               ensures=["legal1(result, action_mask)", "best1(result, Vec_q, action_mask)"], replay="c14:dqn")
+    P.contract("agilerl.algorithms.dqn_rainbow.RainbowDQN.get_action", variant="unmasked",
+               params={"self": q_self("RainbowDQN"), "obs": "opaque", "action_mask": (lambda ex, st, l: None), "training": "bool"}, requires=[],
+               frame_fields=False, ensures=["inrange1(result)"], replay="c14:dqn")
+    P.contract("agilerl.algorithms.cqn.CQN.get_action", variant="masked",
+               params={"self": q_self("CQN"), "obs": "opaque", "epsilon": "real", "action_mask": maskp}, requires=["0 <= epsilon", "epsilon <= 1"],
+               frame_fields=False, ensures=["legal1(result, action_mask)"], replay="c14:dqn")       # every exploration draw
+    P.contract("agilerl.algorithms.cqn.CQN.get_action", variant="unmasked",
+               params={"self": q_self("CQN"), "obs": "opaque", "epsilon": "real", "action_mask": (lambda ex, st, l: None)},
+               requires=["0 <= epsilon", "epsilon <= 1"], frame_fields=False, ensures=["inrange1(result)"], replay="c14:dqn")
+    P.trusted += ["numpy.ma.array(values, mask) + numpy.argmax: masked entries are ignored when at least one entry is unmasked; numpy.where; "
+                  "numpy.random.uniform in [0,1), numpy.random.randint(lo, hi) in [lo, hi), random.random() in [0,1)"]
     P.assumptions += ["network outputs are finite reals; masks are 0/1 with at least one legal action; low <= high component-wise",
                       "accelerator is None"]
     P.uncovered += ["with epsilon = 0 the policy branch is taken iff the uniform draw is > 0 (a draw of exactly 0.0 explores): "
                     "'exploration switched off' is read as 'the policy branch is taken'",
-                    "PPO/IPPO evaluation clipping, MADDPG/MATD3, bandits, Rainbow/CQN masked argmax via numpy.ma (native adapter only)",
+                    "PPO/IPPO evaluation clipping, MADDPG/MATD3, bandits (native adapters / not covered)",
                     "batch shape of the returned array"]
     return P
